@@ -48,6 +48,9 @@ def main(chk: core.Check, replay):
     chk.extra["decorations"] = {"base_models": len(keys), "multi_component_base_models": len(split[:n]), "one_headed_component_base_models": len(headed[:n]),
                                 "comment_strings": len(layoutdeco.STRINGS), "by_place": places}
     chk.sample({"decorated_text": out[len(out) // 2]["text"], "decoration": out[len(out) // 2]["deco"]})
+    # the file-level grammar (OdeFile.tla): token strings written on one line / one token per line / without comments
+    from .. import filecase
+    filecase.run(chk, "C17")
 
 
 if __name__ == "__main__":
